@@ -13,6 +13,8 @@ import Driver.Life
 import Driver.Pool
 import Driver.Ring
 import Driver.RingLog
+import Driver.RangeModule
+import Driver.CacheLog
 /-! `driver <model>`: one op per stdin line, one canonical result line per op on stdout. -/
 
 structure Model where
@@ -28,6 +30,8 @@ def dispatch (model : String) : Option Model :=
   | "path" => some (pureModel Driver.Path.step)
   | "iov" => some ⟨Driver.Iov.St, {}, Driver.Iov.step⟩
   | "objcache" => some ⟨Driver.ObjCache.D, {}, Driver.ObjCache.step⟩
+  | "cachelog" => some ⟨Driver.CacheLog.D, {}, Driver.CacheLog.step⟩
+  | "rangemodule" => some ⟨Photon.RangeModule.RM, [], Driver.RangeModule.step⟩
   | "ringlog" => some ⟨Driver.RingLog.D, {}, Driver.RingLog.step⟩
   | "ring" => some ⟨Photon.Ring.Ring, { cap := 2 }, Driver.Ring.step⟩
   | "pool" => some ⟨Driver.Pool.D, {}, Driver.Pool.step⟩
